@@ -219,7 +219,7 @@ def run_slice(check: core.Check, rnd: random.Random) -> None:
     emitted = [h["steps"] for h in core.emitted_json(hres)]
     effect = [h for h in emitted if any(s["r"] != s["rr"] for s in h)]
     rest = [h for h in emitted if not any(s["r"] != s["rr"] for s in h)]
-    sample = effect + rnd.sample(rest, min(len(rest), 100 if quick else 4000))
+    sample = effect + rnd.sample(rest, min(len(rest), 100 if quick else 1500))
     if not quick:
         sim = core.simulate_cases("ProtocolsEmit", "Protocols.histsim.cfg", 600, depth=5, seed=check.seed + 11, check=check, first_num=24)
         sample += [h["steps"] for h in sim]
